@@ -12,14 +12,14 @@ import (
 
 func init() {
 	register("C13", &propSpec{
-		technique: "static analysis: protocol constant/struct-layout tables via go/types, arithmetic-width rule on record lengths, error-discipline on the body path, value-flow isolation of stderr, case-fold flow of the extension test",
+		technique: "static analysis: protocol constant/struct-layout tables via go/types, arithmetic-width rule on record lengths, error-discipline on the body path, value-flow isolation of stderr, case-fold flow of the extension test; decision tables of record.read and streamReader.Read against a scripted record source (E10)",
 		run:       runC13,
 		decided: "R1 the record-type, role and header-layout constants equal the FastCGI specification, record payloads are capped at ≤ 65535, name-value lengths switch to the 4-byte form above 127 with bit 31 set, padding is -n&7, and record lengths are summed in int (no uint16 wrap); " +
 			"R2 the request body handed to the client is the request's Body itself, unconditionally, and errors from copying it to the responder or closing the stdin stream are propagated; " +
-			"R4 stderr records go to the client's stderr buffer and are never assigned to the stdout read buffer, and that buffer reaches only the returned log error; " +
+			"R4 the demultiplexer's decision table (streamReader.Read against scripted sequences of stdout and stderr records, several read sizes): the reader of the response receives exactly the stdout payloads in order, the error buffer exactly the stderr payloads, and that buffer reaches only the returned log error; " +
 			"R5 the extension test that routes a request to the responder lower-cases both sides, and the split position folds case unless CaseSensitivePath; " +
-			"R6 the record reader reports success only after consuming the record's content and padding together and hands back exactly buffer[:contentLength]; R3 (bounds obligations of the client code) is decided under C19.",
-		notDecided: "byte equality of params/body for all sizes (arithmetic of the flush thresholds); demultiplexing under arbitrary framings.",
+			"R6 the record reader's decision table (headers with version, type, content length up to 65535 and padding up to 255, payload reads succeeding or failing): success means the 8-byte header and contentLength+paddingLength bytes were consumed, without 16-bit wrap-around, and exactly the content is handed back; R3 (bounds obligations of the client code) is decided under C19.",
+		notDecided: "byte equality of params/body for all sizes (arithmetic of the flush thresholds); demultiplexing beyond the scripted framings (the table is per record and per short script).",
 	})
 }
 
